@@ -60,6 +60,8 @@ func pureReadScan(e ast.Expr) bool {
 		return pureReadScan(x.X)
 	case *ast.ParenExpr:
 		return pureReadScan(x.X)
+	case *ast.SliceExpr:
+		return pureReadScan(x.X) && x.Low == nil && x.High == nil
 	case *ast.BinaryExpr:
 		return pureReadScan(x.X) && pureReadScan(x.Y)
 	case *ast.UnaryExpr:
@@ -87,6 +89,8 @@ func rewrite(e ast.Expr, sub func(string) ast.Expr, depth int) ast.Expr {
 		return &ast.SelectorExpr{X: rewrite(x.X, sub, depth), Sel: x.Sel}
 	case *ast.ParenExpr:
 		return &ast.ParenExpr{X: rewrite(x.X, sub, depth)}
+	case *ast.SliceExpr:
+		return &ast.SliceExpr{X: rewrite(x.X, sub, depth), Low: x.Low, High: x.High, Max: x.Max, Slice3: x.Slice3}
 	case *ast.BinaryExpr:
 		return &ast.BinaryExpr{X: rewrite(x.X, sub, depth), Op: x.Op, Y: rewrite(x.Y, sub, depth)}
 	case *ast.UnaryExpr:
@@ -381,25 +385,36 @@ func guardKernel(rel, fn string, markers []string, leanName, params string, sp S
 // 3 = it goes round without doing either. Also reports whether a path exists on which a poll is followed by an emit in the same iteration.
 func loopAction(rel, fn, ch, pollCall, leanName, params string, sp Spec) func() string {
 	return func() string {
-		fd := mustFunc(rel, fn)
+		fd := mergedFunc(rel, fn)
+		hasCall := func(n ast.Node) bool {
+			found := false
+			ast.Inspect(n, func(m ast.Node) bool {
+				if c, ok := m.(*ast.CallExpr); ok && strings.HasSuffix(src(c.Fun), pollCall) {
+					found = true
+				}
+				return true
+			})
+			return found
+		}
+		hasSend := func(n ast.Node) bool {
+			found := false
+			ast.Inspect(n, func(m ast.Node) bool {
+				if _, ok := m.(*ast.SendStmt); ok {
+					found = true
+				}
+				return true
+			})
+			return found
+		}
 		var loops []*ast.ForStmt
 		ast.Inspect(fd.Body, func(n ast.Node) bool {
-			if f, ok := n.(*ast.ForStmt); ok {
-				sends := false
-				ast.Inspect(f.Body, func(m ast.Node) bool {
-					if s, ok := m.(*ast.SendStmt); ok && src(s.Chan) == ch {
-						sends = true
-					}
-					return true
-				})
-				if sends {
-					loops = append(loops, f)
-				}
+			if f, ok := n.(*ast.ForStmt); ok && hasCall(f.Body) && hasSend(f.Body) {
+				loops = append(loops, f)
 			}
 			return true
 		})
 		if len(loops) != 1 {
-			panic(bail{fmt.Sprintf("%s: expected one loop sending on %s in %s, found %d", rel, ch, fn, len(loops))})
+			panic(bail{fmt.Sprintf("%s: expected one loop that polls (%s) and sends on a channel in %s (helpers included), found %d", rel, pollCall, fn, len(loops))})
 		}
 		t := &tr{sp: sp}
 		pollThenEmit := false
@@ -413,16 +428,7 @@ func loopAction(rel, fn, ch, pollCall, leanName, params string, sp Spec) func() 
 			})
 			return found
 		}
-		isEmit := func(n ast.Node) bool {
-			found := false
-			ast.Inspect(n, func(m ast.Node) bool {
-				if s, ok := m.(*ast.SendStmt); ok && src(s.Chan) == ch {
-					found = true
-				}
-				return true
-			})
-			return found
-		}
+		isEmit := hasSend
 		// afterPoll: does the continuation of this iteration reach an emit?
 		var reachesEmit func(list []ast.Stmt) bool
 		reachesEmit = func(list []ast.Stmt) bool {
@@ -555,6 +561,7 @@ type chainSpec struct {
 	Skip     []string
 	From, To string // only the statements after the one starting with From / before the one starting with To (either may be "")
 	Fall     string // value when the body (or the slice) is left without a return
+	ErrLast  bool   // returns not listed in Rets: 0 when the last result is `nil`, the error value (or 1) otherwise
 }
 
 func hasPrefixAny(s string, ps []string) bool {
@@ -595,6 +602,36 @@ func lookupSuffixCall(m map[string]string, e ast.Expr) (string, bool) {
 func decisionChain(rel, fn, leanName, params, resultTy string, cs chainSpec) func() string {
 	return func() string {
 		fd := mustFunc(rel, fn)
+		if cs.From != "" {
+			// the slice may have moved into a same-file helper
+			for _, g := range reachable(rel, fn) {
+				for _, st := range g.Body.List {
+					if strings.HasPrefix(src(st), cs.From) {
+						fd = g
+					}
+				}
+			}
+		}
+		helperHasTo := func(e ast.Expr) bool {
+			c, ok := e.(*ast.CallExpr)
+			if !ok || cs.To == "" {
+				return false
+			}
+			name := src(c.Fun)
+			if i := strings.LastIndex(name, "."); i >= 0 {
+				name = name[i+1:]
+			}
+			for _, g := range funcsOfFile(rel) {
+				if g.Name.Name == name {
+					for _, st := range g.Body.List {
+						if strings.HasPrefix(src(st), cs.To) {
+							return true
+						}
+					}
+				}
+			}
+			return false
+		}
 		list := fd.Body.List
 		if cs.From != "" || cs.To != "" {
 			lo, hi := 0, len(list)
@@ -611,8 +648,37 @@ func decisionChain(rel, fn, leanName, params, resultTy string, cs chainSpec) fun
 			list = list[lo:hi]
 		}
 		pendingErr := ""
+		var lookupCond func(e ast.Expr) (string, bool)
+		lookupCond = func(e ast.Expr) (string, bool) {
+			if v, ok := lookupPrefix(cs.Conds, src(e)); ok {
+				return v, true
+			}
+			switch y := e.(type) {
+			case *ast.ParenExpr:
+				return lookupCond(y.X)
+			case *ast.UnaryExpr:
+				if y.Op == token.NOT {
+					if v, ok := lookupCond(y.X); ok {
+						return "(!" + v + ")", true
+					}
+				}
+			case *ast.BinaryExpr:
+				flip := map[token.Token]token.Token{token.NEQ: token.EQL, token.EQL: token.NEQ, token.GTR: token.LEQ, token.LEQ: token.GTR, token.LSS: token.GEQ, token.GEQ: token.LSS}
+				if op, ok := flip[y.Op]; ok {
+					if v, ok := lookupPrefix(cs.Conds, src(&ast.BinaryExpr{X: y.X, Op: op, Y: y.Y})); ok {
+						return "(!" + v + ")", true
+					}
+				}
+			}
+			return "", false
+		}
 		condOf := func(x *ast.IfStmt) (string, bool) {
 			key := src(x.Cond)
+			if x.Init == nil {
+				if v, ok := lookupCond(x.Cond); ok {
+					return v, true
+				}
+			}
 			if x.Init != nil {
 				key = src(x.Init) + " ; " + key
 				if a, ok := x.Init.(*ast.AssignStmt); ok && len(a.Rhs) == 1 {
@@ -643,6 +709,24 @@ func decisionChain(rel, fn, leanName, params, resultTy string, cs chainSpec) fun
 			if v, ok := lookupPrefix(cs.Rets, key); ok {
 				return v
 			}
+			if len(r.Results) == 1 && helperHasTo(r.Results[0]) && cs.Fall != "" {
+				return cs.Fall // the rest of the function lives in this helper
+			}
+			if n := len(r.Results); n >= 1 {
+				last := r.Results[n-1]
+				if v, ok := lookupSuffixCall(cs.ErrCalls, last); ok {
+					return "(if " + v + " then 1 else 0)" // `return f(…)`: f's own verdict
+				}
+				if src(last) == "err" && pendingErr != "" {
+					return "(if " + pendingErr + " then 1 else 0)"
+				}
+				if cs.ErrLast {
+					if src(last) == "nil" {
+						return "0"
+					}
+					return "1"
+				}
+			}
 			panic(bail{fmt.Sprintf("%s: %s: undeclared return `%s`", rel, fn, key)})
 		}
 		var walk func(list []ast.Stmt) string
@@ -653,15 +737,54 @@ func decisionChain(rel, fn, leanName, params, resultTy string, cs chainSpec) fun
 				case *ast.ReturnStmt:
 					return retOf(x)
 				case *ast.IfStmt:
+					// `if v := <pure read>; cond` — read cond (and the returns inside) with v replaced by what it stands for
+					if a, ok := x.Init.(*ast.AssignStmt); ok && a.Tok == token.DEFINE && len(a.Lhs) == len(a.Rhs) {
+						pure := true
+						al := map[string]ast.Expr{}
+						for i, l := range a.Lhs {
+							id, ok := l.(*ast.Ident)
+							if !ok || !pureRead(a.Rhs[i]) {
+								pure = false
+								break
+							}
+							al[id.Name] = a.Rhs[i]
+						}
+						if pure {
+							sub := func(n string) ast.Expr { return al[n] }
+							nx := &ast.IfStmt{Cond: rewrite(x.Cond, sub, 1), Else: x.Else, Body: &ast.BlockStmt{}}
+							for _, b := range x.Body.List {
+								if r, ok := b.(*ast.ReturnStmt); ok {
+									nr := &ast.ReturnStmt{}
+									for _, e := range r.Results {
+										nr.Results = append(nr.Results, rewrite(e, sub, 1))
+									}
+									b = nr
+								}
+								nx.Body.List = append(nx.Body.List, b)
+							}
+							x = nx
+						}
+					}
 					c, ok := condOf(x)
 					if !ok {
+						// `if err == nil { err = f(…) }`: the error now also covers f's verdict
+						if pendingErr != "" && norm(src(x.Cond)) == "err==nil" && len(x.Body.List) == 1 && x.Else == nil {
+							if a, ok := x.Body.List[0].(*ast.AssignStmt); ok && len(a.Lhs) == 1 && src(a.Lhs[0]) == "err" && len(a.Rhs) == 1 {
+								if v, ok := lookupSuffixCall(cs.ErrCalls, a.Rhs[0]); ok {
+									pendingErr = "(" + pendingErr + " || " + v + ")"
+									continue
+								}
+							}
+						}
 						if hasReturn([]ast.Stmt{x}) {
 							panic(bail{fmt.Sprintf("%s: %s: undeclared test `%s` guards a return", rel, fn, src(x.Cond))})
 						}
 						continue // an effect only
 					}
-					pendingErr = ""
+					keepErr := pendingErr
+					pendingErr = keepErr
 					thenP := walk(append(append([]ast.Stmt{}, x.Body.List...), rest...))
+					pendingErr = keepErr
 					elseP := walk(append(append([]ast.Stmt{}, elseList(x.Else)...), rest...))
 					if thenP == elseP {
 						return thenP
@@ -733,6 +856,13 @@ func decisionChain(rel, fn, leanName, params, resultTy string, cs chainSpec) fun
 func stmtOrder(rel, fn, from string, prefixes []string, leanName string) func() string {
 	return func() string {
 		fd := mustFunc(rel, fn)
+		for _, g := range reachable(rel, fn) {
+			for _, st := range g.Body.List {
+				if from != "" && strings.HasPrefix(src(st), from) {
+					fd = g
+				}
+			}
+		}
 		var rows []string
 		on := from == ""
 		for _, st := range fd.Body.List {
@@ -744,13 +874,13 @@ func stmtOrder(rel, fn, from string, prefixes []string, leanName string) func() 
 				}
 			}
 			for _, p := range prefixes {
-				if strings.HasPrefix(norm(c), norm(p)) {
+				if strings.Contains(norm(c), norm(p)) {
 					rows = append(rows, p)
 					break
 				}
 			}
 		}
-		return fmt.Sprintf("/-- generated from %s func %s: the order of these top-level statements -/\ndef %s : List String :=\n  %s\n", rel, fn, leanName, scanStrList(rows))
+		return fmt.Sprintf("/-- generated from %s func %s: the order of the top-level statements containing these texts -/\ndef %s : List String :=\n  %s\n", rel, fd.Name.Name, leanName, scanStrList(rows))
 	}
 }
 
@@ -759,7 +889,8 @@ func stmtOrder(rel, fn, from string, prefixes []string, leanName string) func() 
 // range, 2 = it hands the batch to the callback and advances. The request may be made in the loop or in a same-file helper.
 func workerDecision(rel, fn, deliverCall, leanName string) func() string {
 	return func() string {
-		fd := mustFunc(rel, fn)
+		fd := mergedFunc(rel, fn)
+		requesters := reachesCall(rel, ".GetRawEntries")
 		var loop *ast.ForStmt
 		ast.Inspect(fd.Body, func(n ast.Node) bool {
 			if f, ok := n.(*ast.ForStmt); ok && f.Cond != nil && strings.Contains(src(f.Cond), ".start") && strings.Contains(src(f.Cond), ".end") {
@@ -773,8 +904,17 @@ func workerDecision(rel, fn, deliverCall, leanName string) func() string {
 		contains := func(n ast.Node, sub string) bool {
 			found := false
 			ast.Inspect(n, func(m ast.Node) bool {
-				if c, ok := m.(*ast.CallExpr); ok && strings.Contains(src(c.Fun), sub) {
-					found = true
+				if c, ok := m.(*ast.CallExpr); ok {
+					name := src(c.Fun)
+					if strings.Contains(name, sub) {
+						found = true
+					}
+					// a same-file helper through which the get-entries request is made counts as the request
+					if sub == "GetRawEntries" {
+						if i := strings.LastIndex(name, "."); requesters[name[i+1:]] {
+							found = true
+						}
+					}
 				}
 				return true
 			})
@@ -835,5 +975,352 @@ func workerDecision(rel, fn, deliverCall, leanName string) func() string {
 			return "1"
 		}
 		return fmt.Sprintf("/-- generated from %s func %s: one round of the worker loop `for %s`: 0 return, 1 ask again for the same range, 2 deliver and advance -/\ndef %s (ctxDone reqFails : Bool) : Nat :=\n  %s\n", rel, fn, src(loop.Cond), leanName, walk(loop.Body.List, false))
+	}
+}
+
+// ---- round 3: units that look at a function together with the same-file helpers it was split into
+
+// mergedFunc: a synthetic declaration whose body is fn's statements followed by one block per same-file helper reachable from fn.
+// Marker / anchor searches (ast.Inspect, findStmts) over it see the code wherever a refactoring moved it.
+func mergedFunc(rel, fn string) *ast.FuncDecl {
+	fs := reachable(rel, fn)
+	body := &ast.BlockStmt{List: append([]ast.Stmt{}, fs[0].Body.List...)}
+	for _, h := range fs[1:] {
+		body.List = append(body.List, &ast.BlockStmt{List: h.Body.List})
+	}
+	return &ast.FuncDecl{Name: fs[0].Name, Type: fs[0].Type, Recv: fs[0].Recv, Body: body}
+}
+
+// reachesCall: names of the same-file functions from which a call whose name ends in suffix is reachable.
+func reachesCall(rel, suffix string) map[string]bool {
+	out := map[string]bool{}
+	for _, fd := range funcsOfFile(rel) {
+		for _, g := range reachable(rel, recvName(fd)) {
+			hit := false
+			ast.Inspect(g.Body, func(n ast.Node) bool {
+				if c, ok := n.(*ast.CallExpr); ok && strings.HasSuffix(src(c.Fun), suffix) {
+					hit = true
+				}
+				return true
+			})
+			if hit {
+				out[fd.Name.Name] = true
+			}
+		}
+	}
+	return out
+}
+
+func recvName(fd *ast.FuncDecl) string {
+	if fd.Recv != nil && len(fd.Recv.List) == 1 {
+		t := fd.Recv.List[0].Type
+		if s, ok := t.(*ast.StarExpr); ok {
+			t = s.X
+		}
+		if id, ok := t.(*ast.Ident); ok {
+			return id.Name + "." + fd.Name.Name
+		}
+	}
+	return fd.Name.Name
+}
+
+// baseRename: every identifier X occurring in n as `X.start` / `X.end` is renamed to base.
+func baseRename(n ast.Node, base string) map[string]string {
+	names := map[string]string{}
+	ast.Inspect(n, func(m ast.Node) bool {
+		if se, ok := m.(*ast.SelectorExpr); ok && (se.Sel.Name == "start" || se.Sel.Name == "end") {
+			if id, ok := se.X.(*ast.Ident); ok {
+				names[id.Name] = base
+			}
+		}
+		return true
+	})
+	return names
+}
+
+func renameOnly(e ast.Expr, names map[string]string) ast.Expr {
+	return rewrite(e, func(n string) ast.Expr {
+		if c, ok := names[n]; ok && c != n {
+			return ast.NewIdent(c)
+		}
+		return nil
+	}, 1)
+}
+
+// assignAnywhere: the unique assignment to lhs in fn or its helpers; with follow, unique local definitions on the right-hand side are followed first.
+func assignAnywhere(rel, fn, lhs string, follow bool, leanName, params, resultTy string, sp Spec) func() string {
+	return func() string {
+		fd := mergedFunc(rel, fn)
+		ss := findStmts(fd, func(s ast.Stmt) bool {
+			a, ok := s.(*ast.AssignStmt)
+			return ok && len(a.Lhs) == 1 && len(a.Rhs) == 1 && src(a.Lhs[0]) == lhs
+		})
+		if len(ss) != 1 {
+			panic(bail{fmt.Sprintf("%s: expected exactly one assignment to %s in %s (helpers included), found %d", rel, lhs, fn, len(ss))})
+		}
+		rhs := ss[0].(*ast.AssignStmt).Rhs[0]
+		if follow {
+			rhs = canon(fd.Body, map[string]string{}, rhs)
+		}
+		t := &tr{sp: sp}
+		return fmt.Sprintf("/-- generated from %s func %s: `%s` -/\ndef %s %s : %s :=\n  %s\n", rel, fn, src(ss[0]), leanName, params, resultTy, t.expr(rhs))
+	}
+}
+
+// rangeLiteral: the unique composite literal of type typ in fn (helpers included) with two elements, positional or keyed by `start` / `end`.
+func rangeLiteral(rel, fn, typ, leanName, params, resultTy string, sp Spec) func() string {
+	return func() string {
+		fd := mergedFunc(rel, fn)
+		var lits []*ast.CompositeLit
+		ast.Inspect(fd.Body, func(n ast.Node) bool {
+			if c, ok := n.(*ast.CompositeLit); ok && c.Type != nil && src(c.Type) == typ {
+				lits = append(lits, c)
+			}
+			return true
+		})
+		if len(lits) != 1 || len(lits[0].Elts) != 2 {
+			panic(bail{fmt.Sprintf("%s: expected exactly one two-element %s literal in %s (helpers included), found %d", rel, typ, fn, len(lits))})
+		}
+		var first, second ast.Expr = lits[0].Elts[0], lits[0].Elts[1]
+		if kv, ok := first.(*ast.KeyValueExpr); ok {
+			vals := map[string]ast.Expr{}
+			for _, el := range lits[0].Elts {
+				kv2, ok := el.(*ast.KeyValueExpr)
+				if !ok {
+					panic(bail{fmt.Sprintf("%s: mixed literal %s", rel, src(lits[0]))})
+				}
+				vals[src(kv2.Key)] = kv2.Value
+			}
+			_ = kv
+			first, second = vals["start"], vals["end"]
+			if first == nil || second == nil {
+				panic(bail{fmt.Sprintf("%s: %s lacks start/end keys", rel, src(lits[0]))})
+			}
+		}
+		t := &tr{sp: sp}
+		return fmt.Sprintf("/-- generated from %s func %s: `%s` -/\ndef %s %s : %s :=\n  (%s, %s)\n", rel, fn, src(lits[0]), leanName, params, resultTy, t.expr(first), t.expr(second))
+	}
+}
+
+// startAdvance: the unique `X.start += e` in fn (helpers included); X is addressed as `r`, any `len(…)` in e as `n`.
+func startAdvance(rel, fn, leanName, params, resultTy string, sp Spec) func() string {
+	return func() string {
+		fd := mergedFunc(rel, fn)
+		ss := findStmts(fd, func(s ast.Stmt) bool {
+			a, ok := s.(*ast.AssignStmt)
+			if !ok || a.Tok != token.ADD_ASSIGN || len(a.Lhs) != 1 {
+				return false
+			}
+			se, ok := a.Lhs[0].(*ast.SelectorExpr)
+			return ok && se.Sel.Name == "start"
+		})
+		if len(ss) != 1 {
+			panic(bail{fmt.Sprintf("%s: expected exactly one `….start += …` in %s (helpers included), found %d", rel, fn, len(ss))})
+		}
+		a := ss[0].(*ast.AssignStmt)
+		var lenless func(e ast.Expr) ast.Expr
+		lenless = func(e ast.Expr) ast.Expr {
+			switch x := e.(type) {
+			case *ast.CallExpr:
+				if src(x.Fun) == "len" {
+					return ast.NewIdent("verifLenN")
+				}
+				c := &ast.CallExpr{Fun: x.Fun}
+				for _, ar := range x.Args {
+					c.Args = append(c.Args, lenless(ar))
+				}
+				return c
+			case *ast.BinaryExpr:
+				return &ast.BinaryExpr{X: lenless(x.X), Op: x.Op, Y: lenless(x.Y)}
+			case *ast.ParenExpr:
+				return &ast.ParenExpr{X: lenless(x.X)}
+			}
+			return e
+		}
+		sum := &ast.BinaryExpr{X: a.Lhs[0], Op: token.ADD, Y: lenless(a.Rhs[0])}
+		e := renameOnly(sum, baseRename(sum, "r"))
+		sp2 := sp
+		sp2.Repl = map[string]string{"r.start": "rstart", "verifLenN": "n"}
+		t := &tr{sp: sp2}
+		return fmt.Sprintf("/-- generated from %s func %s: `%s` -/\ndef %s %s : %s :=\n  %s\n", rel, fn, src(a), leanName, params, resultTy, t.expr(e))
+	}
+}
+
+// rangeLoopCond: the condition of the unique `for` in fn (helpers included) that compares `X.start` with `X.end`; X addressed as `r`.
+func rangeLoopCond(rel, fn, leanName, params string, sp Spec) func() string {
+	return func() string {
+		fd := mergedFunc(rel, fn)
+		var loops []*ast.ForStmt
+		ast.Inspect(fd.Body, func(n ast.Node) bool {
+			if f, ok := n.(*ast.ForStmt); ok && f.Cond != nil && strings.Contains(src(f.Cond), ".start") && strings.Contains(src(f.Cond), ".end") {
+				loops = append(loops, f)
+			}
+			return true
+		})
+		if len(loops) != 1 {
+			panic(bail{fmt.Sprintf("%s: expected one loop over a range's start/end in %s (helpers included), found %d", rel, fn, len(loops))})
+		}
+		e := renameOnly(loops[0].Cond, baseRename(loops[0].Cond, "r"))
+		t := &tr{sp: sp}
+		return fmt.Sprintf("/-- generated from %s func %s: `for %s` -/\ndef %s %s : Bool :=\n  %s\n", rel, fn, src(loops[0].Cond), leanName, params, t.expr(e))
+	}
+}
+
+// guardOfAssign: the condition of the unique `if` in fn whose body assigns to lhs, with the if's own init and unique local definitions followed.
+func guardOfAssign(rel, fn, lhs, leanName, params string, sp Spec) func() string {
+	return func() string {
+		fd := mustFunc(rel, fn)
+		var hits []*ast.IfStmt
+		ast.Inspect(fd.Body, func(n ast.Node) bool {
+			is, ok := n.(*ast.IfStmt)
+			if !ok {
+				return true
+			}
+			for _, st := range is.Body.List {
+				if a, ok := st.(*ast.AssignStmt); ok && len(a.Lhs) == 1 && src(a.Lhs[0]) == lhs {
+					hits = append(hits, is)
+				}
+			}
+			return true
+		})
+		if len(hits) != 1 {
+			panic(bail{fmt.Sprintf("%s: expected exactly one `if` assigning %s in %s, found %d", rel, lhs, fn, len(hits))})
+		}
+		is := hits[0]
+		cond := is.Cond
+		if a, ok := is.Init.(*ast.AssignStmt); ok && a.Tok == token.DEFINE && len(a.Lhs) == len(a.Rhs) {
+			al := map[string]ast.Expr{}
+			for i, l := range a.Lhs {
+				if id, ok := l.(*ast.Ident); ok {
+					al[id.Name] = a.Rhs[i]
+				}
+			}
+			cond = rewrite(cond, func(n string) ast.Expr { return al[n] }, 1)
+		}
+		cond = canon(fd.Body, map[string]string{}, cond)
+		t := &tr{sp: sp}
+		return fmt.Sprintf("/-- generated from %s func %s: the guard of `%s = …`, locals followed: `%s` -/\ndef %s %s : Bool :=\n  %s\n", rel, fn, lhs, src(cond), leanName, params, t.expr(cond))
+	}
+}
+
+// rejectGuards: in the function literal of fn that contains a call ending in pollSuffix, the disjunction of the guards of the top-level
+// `if c { return <non-nil> }` statements other than the error test that follows the poll; locals (of the literal and of fn) followed.
+func rejectGuards(rel, fn, pollSuffix, leanName, params string, sp Spec) func() string {
+	return func() string {
+		fd := mustFunc(rel, fn)
+		var lit *ast.FuncLit
+		ast.Inspect(fd.Body, func(n ast.Node) bool {
+			if fl, ok := n.(*ast.FuncLit); ok && lit == nil {
+				hit := false
+				ast.Inspect(fl.Body, func(m ast.Node) bool {
+					if c, ok := m.(*ast.CallExpr); ok && strings.HasSuffix(src(c.Fun), pollSuffix) {
+						hit = true
+					}
+					return true
+				})
+				if hit {
+					lit = fl
+				}
+			}
+			return true
+		})
+		if lit == nil {
+			panic(bail{fmt.Sprintf("%s: no function literal calling …%s in %s", rel, pollSuffix, fn)})
+		}
+		var disj ast.Expr
+		var collect func(list []ast.Stmt)
+		collect = func(list []ast.Stmt) {
+			for _, st := range list {
+				switch x := st.(type) {
+				case *ast.IfStmt:
+					if norm(src(x.Cond)) == "err!=nil" {
+						continue
+					}
+					rets := false
+					for _, b := range x.Body.List {
+						if r, ok := b.(*ast.ReturnStmt); ok && len(r.Results) == 1 && src(r.Results[0]) != "nil" {
+							rets = true
+						}
+					}
+					if rets {
+						if disj == nil {
+							disj = x.Cond
+						} else {
+							disj = &ast.BinaryExpr{X: disj, Op: token.LOR, Y: &ast.ParenExpr{X: x.Cond}}
+						}
+					}
+				case *ast.SwitchStmt:
+					if x.Tag == nil {
+						for _, c := range x.Body.List {
+							cc := c.(*ast.CaseClause)
+							rets := false
+							for _, b := range cc.Body {
+								if r, ok := b.(*ast.ReturnStmt); ok && len(r.Results) == 1 && src(r.Results[0]) != "nil" {
+									rets = true
+								}
+							}
+							if rets {
+								for _, e := range cc.List {
+									if disj == nil {
+										disj = e
+									} else {
+										disj = &ast.BinaryExpr{X: disj, Op: token.LOR, Y: &ast.ParenExpr{X: e}}
+									}
+								}
+							}
+						}
+					}
+				}
+			}
+		}
+		collect(lit.Body.List)
+		if disj == nil {
+			panic(bail{fmt.Sprintf("%s: no rejecting test found in the retry closure of %s", rel, fn)})
+		}
+		// follow the closure's locals first, then the function's
+		e := canon(lit.Body, map[string]string{}, disj)
+		e = canon(&ast.BlockStmt{List: nonLit(fd.Body.List)}, map[string]string{}, e)
+		t := &tr{sp: sp}
+		return fmt.Sprintf("/-- generated from %s func %s: the retry closure answers \"wait for a bigger STH\" iff `%s` -/\ndef %s %s : Bool :=\n  %s\n", rel, fn, src(e), leanName, params, t.expr(e))
+	}
+}
+
+// nonLit: the statements of a body without the one that contains a function literal (so that its locals do not count as the function's).
+func nonLit(list []ast.Stmt) []ast.Stmt {
+	var out []ast.Stmt
+	for _, st := range list {
+		has := false
+		ast.Inspect(st, func(n ast.Node) bool {
+			if _, ok := n.(*ast.FuncLit); ok {
+				has = true
+			}
+			return true
+		})
+		if !has {
+			out = append(out, st)
+		}
+	}
+	return out
+}
+
+// callArgSourcesFollowed: the argument sources of the unique call of callee in fn, unique local definitions followed.
+func callArgSourcesFollowed(rel, fn, callee, leanName string) func() string {
+	return func() string {
+		fd := mustFunc(rel, fn)
+		var calls []*ast.CallExpr
+		ast.Inspect(fd.Body, func(n ast.Node) bool {
+			if c, ok := n.(*ast.CallExpr); ok && src(c.Fun) == callee {
+				calls = append(calls, c)
+			}
+			return true
+		})
+		if len(calls) != 1 {
+			panic(bail{fmt.Sprintf("%s: expected exactly one call of %s in %s, found %d", rel, callee, fn, len(calls))})
+		}
+		var xs []string
+		for _, a := range calls[0].Args {
+			xs = append(xs, src(canon(fd.Body, map[string]string{}, a)))
+		}
+		return fmt.Sprintf("/-- generated from %s func %s: arguments of `%s` (locals followed) -/\ndef %s : List String :=\n  %s\n", rel, fn, callee, leanName, scanStrList(xs))
 	}
 }
